@@ -111,6 +111,8 @@ pub struct World {
     pub pending_mined: u64,
     pub remined: u64,
     pub coin_seq: u32,
+    /// a transaction spending coins was just stored: mine it at the next chain operation
+    pub mine_pending_soon: bool,
 }
 
 pub enum WitRes {
@@ -148,6 +150,7 @@ impl World {
             pending_mined: 0,
             remined: 0,
             coin_seq: 0,
+            mine_pending_soon: false,
         }
     }
 
@@ -443,7 +446,7 @@ impl World {
             .map(|(k, _)| *k)
             .collect();
         let lo = self.sim.base_height() + 1;
-        let height = if self.rng.gen_bool(0.6) { tip.saturating_sub(self.rng.gen_range(0..12)).max(lo) } else { self.rng.gen_range(lo..=tip) };
+        let height = if self.rng.gen_bool(0.75) { tip.saturating_sub(self.rng.gen_range(0..4)).max(lo) } else { self.rng.gen_range(lo..=tip) };
         let (key, addr, value, acct) = if !unmined.is_empty() && self.rng.gen_bool(0.5) {
             let k = *unmined.choose(&mut self.rng).unwrap();
             let c = &self.m.coins[&k];
